@@ -125,7 +125,12 @@ EXTRA_SELECTORS = ["Type.string == 'only-in-m'", "'only-in' in Type.string", "fi
                    "Type.string == 'a'", "'a' in Type.string", "Type.varint > 3", "name(r) == 't/sel'", "has_field(r, 's')", "r.s in ['a', 'Ab']",
                    "any(x == 'a' for x in r.l)", "any(x == 'a' for x in r.l) and any(x == 'b' for x in r.l)", "field_contains(r, ['s', 'q'], ['A'])",
                    "r.q == 'a'", "r.q != 'a'", "r.n % 2 == 0 and r.s != ''", "not r.t", "r.n >= 3 or r.q == 'x'", "r.missing == 1", "r.n",
-                   "any(f.name == 's' for f in fields('string'))", "any(f.name == 'q' for f in fields('string'))", "lower(r.s) == 'ab'", "r.n in [1, 2, 5]", "r.s < 'b'"]
+                   "any(f.name == 's' for f in fields('string'))", "any(f.name == 'q' for f in fields('string'))", "lower(r.s) == 'ab'", "r.n in [1, 2, 5]", "r.s < 'b'",
+                   # results that are falsy / truthy without being booleans
+                   "r.s", "r.z", "r.l", "r.n % 2", "lower(r.s)", "r.missing", "r.t and r.s", "r.s or r.q", "r.n - 3",
+                   # a comparison on a field one type lacks OR a helper / typed matcher that looks at values
+                   "r.q == 'zz' or field_contains(r, ['s'], ['A'])", "r.missing == 1 or field_equals(r, ['s'], ['a'])", "r.q == 'zz' or field_regex(r, ['s'], 'A.*')",
+                   "r.q == 'zz' or Type.string == 'Ab'", "r.m == 'zz' or field_contains(r, ['s', 'w'], ['zz'])"]
 
 
 def run(tier):
@@ -134,10 +139,12 @@ def run(tier):
 
     ctx = check.Ctx(PROP, tier)
     thorough = tier == "thorough"
-    ctx.design("FilterLoop", "MC_FilterLoop.cfg", "all sequences <= 4 over 3 record shapes x 3 selector kinds", actions=("Step",), workers=4)
+    ctx.design("FilterLoop", "MC_FilterLoop.cfg", "all sequences <= 4 over 3 record shapes x 5 selector kinds", actions=("Step",), workers=4)
     if thorough:
         ctx.sensitivity("FilterLoop", "MC_FilterLoop_dev_ns.cfg", "a namespace that survives between records must violate OutIsFilter", "OutIsFilter", workers=4)
         ctx.sensitivity("FilterLoop", "MC_FilterLoop_dev_ign.cfg", "an adapter that ignores the selector must violate OutIsFilter", "OutIsFilter", workers=4)
+        ctx.sensitivity("FilterLoop", "MC_FilterLoop_dev_false.cfg", "a reader that skips only on `is False` must violate OutIsFilter", "OutIsFilter", workers=4)
+        ctx.sensitivity("FilterLoop", "MC_FilterLoop_dev_cache.cfg", "a per-type reject cache must violate OutIsFilter", "OutIsFilter", workers=4)
     exprs, _ = sg.c07_exprs(ctx.rnd, 1500)
     pool = [sg.src(e) for e, t in exprs if sg.supported_interpreted(e)]
     sels = EXTRA_SELECTORS + ctx.rnd.sample(pool, 40 if not thorough else 400)
